@@ -45,15 +45,19 @@ func (d *DefaultExtension) Attr(name string) (*Attr, bool) {
 type registry map[string]any
 
 var (
-	extensions   = make(registry)
-	extensionsMu sync.RWMutex
+	extensions = make(registry)
+	// extensionNames holds the registered names in registration order.
+	extensionNames []string
+	extensionsMu   sync.RWMutex
 )
 
+// lookup returns the name the type of ext was registered with. If the type was
+// registered with more than one name, the name that was registered first wins.
 func (r registry) lookup(ext any) (string, bool) {
 	extensionsMu.RLock()
 	defer extensionsMu.RUnlock()
-	for k, v := range r {
-		if reflect.TypeOf(ext) == reflect.TypeOf(v) {
+	for _, k := range extensionNames {
+		if v, ok := r[k]; ok && reflect.TypeOf(ext) == reflect.TypeOf(v) {
 			return k, true
 		}
 	}
@@ -87,6 +91,7 @@ func Register(name string, ext any) {
 		panic("schemahcl: Register called twice for type " + name)
 	}
 	extensions[name] = ext
+	extensionNames = append(extensionNames, name)
 }
 
 // As reads the attributes and children resources of the resource into the target struct.
